@@ -629,3 +629,89 @@ def r09_7(ctx, repo):
                           'found' % construct)
     if n < 2:
         ctx.error(rule, 'only %d sites found (floor 2)' % n)
+
+
+def r09_8(ctx, repo):
+    """The parameter count is the length of the parameter name list.
+
+    `_set_number_and_names` publishes `_parameter_names = states + constants`
+    and `_n_parameters = n_states + <count of constants>`.  The constants are
+    a *filtered* list (derived constants are not parameters), so the count
+    must be the length of that filtered list: either `len(...)` of it, or a
+    counter that starts at the size of the iterated collection and is
+    decremented on exactly the paths that do not append."""
+    rule = 'R09.8'
+    from ..rules.cursors import cursor_increments
+    n = 0
+    for cls in repo.subclasses(CLS):
+        fn = repo.cls(cls).methods.get('_set_number_and_names')
+        if fn is None:
+            continue
+        construct = '%s._set_number_and_names' % cls
+        counts = [a for a in ast.walk(fn) if isinstance(a, ast.Assign)
+                  and U(a.targets[0]) == 'self._n_parameters']
+        if not counts:
+            ctx.error(rule, '%s: assignment of _n_parameters not found'
+                      % construct)
+            continue
+        n += 1
+        cnt = counts[-1]
+        where = repo.loc(cnt, cls, fn.name)
+        terms = []
+
+        def flat(e):
+            if isinstance(e, ast.BinOp) and isinstance(e.op, ast.Add):
+                flat(e.left)
+                flat(e.right)
+            else:
+                terms.append(e)
+        flat(cnt.value)
+        # the list of constant names and how it is filled
+        fills = [a for a in ast.walk(fn) if isinstance(a, ast.Assign)
+                 and U(a.targets[0]) == 'const_names']
+        loop = None
+        for l in ast.walk(fn):
+            if isinstance(l, ast.For) and any(
+                    isinstance(c, ast.Call) and isinstance(
+                        c.func, ast.Attribute) and c.func.attr == 'append'
+                    and U(c.func.value) == 'const_names'
+                    for c in ast.walk(l)):
+                loop = l
+        comp = [a.value for a in fills if isinstance(a.value, ast.ListComp)]
+        filtered = bool(comp and any(g.ifs for g in comp[-1].generators)) or (
+            loop is not None and any(isinstance(x, ast.Continue)
+                                     for x in ast.walk(loop)))
+        bad = None
+        for t in terms:
+            txt = U(t).replace(' ', '')
+            if txt in ('self._n_states',) or txt.startswith('len('):
+                continue
+            if not isinstance(t, ast.Name):
+                continue
+            # a counter: its decrements must mirror the filter
+            if loop is not None:
+                incs = cursor_increments(loop, t.id)
+                # every path either appends (inc 0) or skips (inc -1):
+                # count the appending paths by re-walking with the list
+                dec = [inc for conds, inc in incs]
+                n_skip_paths = sum(1 for x in ast.walk(loop)
+                                   if isinstance(x, ast.Continue))
+                n_dec = sum(1 for d in dec if d is not None and d == -1)
+                if filtered and n_dec < max(1, n_skip_paths):
+                    bad = t
+            elif filtered:
+                bad = t
+        if bad is not None:
+            ctx.violation(
+                rule, where, construct, 'count of constants',
+                '`%s` counts the constants with `%s`, the size of the whole '
+                'collection, while the published names keep only the '
+                'literal constants (the list is filtered): for a model with '
+                'a derived constant n_parameters() exceeds '
+                'len(parameters())' % (norm_stmt(cnt)[:60], bad.id))
+        else:
+            ctx.ok(rule, where, construct,
+                   'n_parameters = n_states + number of published constant '
+                   'names')
+    if n < 1:
+        ctx.error(rule, 'no _set_number_and_names found')
